@@ -69,7 +69,8 @@ def drop_casts(e):
 
 def top_operands(inner):
     """the operand expressions of the outermost operation (after dropping casts around them)"""
-    if _is_scalar(inner):
+    if _is_scalar(inner) or _nan_fill(inner):
+        # a fill: `pt.full(shape, c)`; a pymbolic NaN node (of an inexact type) is `pt.full(shape, nan)`
         return [inner]
     if isinstance(inner, (prim.Quotient, prim.FloorDiv, prim.Remainder)):
         ops = [inner.numerator, inner.denominator]
@@ -96,6 +97,11 @@ def top_operands(inner):
     return [drop_casts(o) for o in ops]
 
 
+def _nan_fill(o) -> bool:
+    """a NaN node the raiser takes as a scalar: untyped or typed with an inexact type"""
+    return isinstance(o, prim.NaN) and (o.data_type is None or np.issubdtype(o.data_type, np.inexact))
+
+
 def _scalar_value(o):
     if isinstance(o, prim.NaN):
         return o.data_type(float("nan")) if o.data_type else np.nan
@@ -107,7 +113,11 @@ def lit_annotations(il) -> str | None:
     spelled in two ways inside one expression)"""
     inner = drop_casts(il.expr)
     ops = top_operands(inner)
-    scalars = [(k, _scalar_value(o)) for k, o in enumerate(ops) if _is_scalar(o) or isinstance(o, prim.NaN)]
+    try:
+        scalars = [(k, _scalar_value(o)) for k, o in enumerate(ops) if _is_scalar(o) or _nan_fill(o)]
+    except (ValueError, OverflowError, TypeError):
+        # e.g. a NaN node typed with an integer dtype: `np.int32(nan)` has no value (the raiser fails alike)
+        return None
     arrays = []
     for k, o in enumerate(ops):
         nm = o.name if isinstance(o, prim.Variable) else (
